@@ -1,5 +1,7 @@
 /* planted bug for the self-test of the E4 explorer: a receive loop that trusts
- * a length byte from the wire (copies pdu[0] bytes into an 8-byte buffer) */
+ * a length byte from the wire (copies pdu[0] bytes into an 8-byte buffer), and that
+ * takes a scratch buffer with alloca() per datagram when the datagram starts with 0x05 */
+#include <alloca.h>
 #include <stdint.h>
 #include <string.h>
 #include <unistd.h>
@@ -13,6 +15,7 @@ int main(int argc, char** argv)
         uint8_t copy[8];
         ssize_t n = recv(fd, pdu, sizeof pdu, 0);
         if (n < 1) continue;
+        if (pdu[0] == 5) { char* scratch = alloca(32); memcpy(scratch, pdu, 6); write(STDOUT_FILENO, scratch + 1, 1); continue; }
         memcpy(copy, pdu + 1, pdu[0]);
         write(STDOUT_FILENO, copy, 1);
     }
